@@ -793,10 +793,14 @@ def c0111(ctx):
                         for s2 in sources(f, rv['a'][0]):
                             if s2[0] == 'call' and re.search(FRESH, s2[1]):
                                 continue
+                            H11 = P.fns.get(s2[1]) if s2[0] == 'call' else None
+                            if H11 is not None and H11.crate == 'ripd' and H11.argc == 0 and H11.calls(r'new_v4$') and all(
+                                    x[0] == 'call' and re.search(FRESH, x[1]) for x in sources(H11, {'c': {'l': 0}})):
+                                continue        # `fn new_thread_id() -> String { Uuid::new_v4().to_string() }`
                             bad.append(s2)
                 continue
             bad.append(sr)
-        has_uuid = (not bad) and (all(x[0] == 'agg' and x[1].endswith('None') for x in srcs) or any(re.search(r'new_v4$', s_.callee) for s_ in f.sites()))
+        has_uuid = (not bad) and (all(x[0] == 'agg' and x[1].endswith('None') for x in srcs) or any(re.search(r'new_v4$', s_.callee) or (P.fns.get(s_.callee or '') is not None and P.fns[s_.callee].argc == 0 and P.fns[s_.callee].calls(r'new_v4$')) for s_ in f.sites()))
         ok = not bad and has_uuid
         ctx.ob('C01.11', f, 'fresh-thread-id', ok,
                'the id handed to create_continuity is %s' % ('None or freshly generated (Uuid::new_v4)' if ok else
